@@ -9,19 +9,19 @@ import resource
 import threading
 from concurrent.futures import ThreadPoolExecutor
 
-from vlib import creach, cy, diff
+from vlib import core, creach, cy, diff
 from props import C03_rows as R
 
 CT = R.CT
 OPSYM = {'div': '//', 'mod': '%'}
 MIN64 = -(1 << 63)
 
-PAIR_TYPES_Q = ['sc', 'uc', 'c', 's', 'us', 'i', 'si', 'ui', 'l', 'ul', 'll', 'ull', 'z', 'sz']
+PAIR_TYPES_Q = ['sc', 'uc', 'c', 's', 'us', 'i', 'si', 'ui', 'l', 'sl', 'ul', 'll', 'ull', 'z', 'sz']
 MIXED = [('sc', 'i'), ('s', 'l'), ('i', 'll'), ('l', 's'), ('ll', 'i'), ('z', 'i'), ('i', 'z'), ('l', 'll'), ('uc', 'i'),
          ('us', 'l'), ('ui', 'll'), ('l', 'uc'), ('uc', 'us'), ('us', 'ul'), ('sc', 's')]
 INPLACE_TYPES = ['sc', 'uc', 's', 'us', 'i', 'ui', 'l', 'ul', 'z']
 CONST_TYPES_Q = ['sc', 's', 'i', 'ui', 'l', 'ul', 'll', 'z']
-CONST_TYPES_T = ['sc', 'uc', 'c', 's', 'us', 'i', 'si', 'ui', 'l', 'ul', 'll', 'ull', 'z', 'sz']
+CONST_TYPES_T = ['sc', 'uc', 'c', 's', 'us', 'i', 'si', 'ui', 'l', 'sl', 'ul', 'll', 'ull', 'z', 'sz']
 CONSTS_Q = [0, 1, -1, 2, 3, -3, 7, -7, 10, 128, -128, 255, 32767, -32768, 65536, 2147483647, -2147483648, 'TMAX', 'TMIN']
 CONSTS_T = CONSTS_Q + [-2, 4, 5, -5, 8, 16, -16, 100, -100, 127, -127, 256, -255, 1000, 32768, -32767, 65535, 1 << 30,
                        -(1 << 30), (1 << 31) - 2, -(1 << 31) + 1, 1 << 32, -(1 << 32), 1 << 62, -(1 << 62),
@@ -551,6 +551,32 @@ def reach_of(f, mode, body):
     return False, None
 
 
+# the driver keeps at most this many mismatch records per chunk; the default (400) is exceeded by the known findings alone
+NO_CAP = {'max_mismatch_records': 2000000}
+
+
+def truncated(ck, res, where):
+    """mismatch records lost to the driver's cap would hide discrepancies: never silently"""
+    if res.nmismatch > len(res.mismatches):
+        ck.inconclusive_if(True, '%d of %d mismatch records of %s were not stored by the driver' % (
+            res.nmismatch - len(res.mismatches), res.nmismatch, where))
+
+
+def split_hangs(ck, crashes, where):
+    """a fired watchdog (timeout of the driver process) is never judged: it makes the run inconclusive"""
+    real = []
+    for c in crashes:
+        if str(c.get('kind', '')).startswith('HANG'):
+            ck.inconclusive_if(True, 'watchdog fired in %s on case %s (not judged)' % (where, str(c.get('case'))[:160]))
+        else:
+            real.append(c)
+    return real
+
+
+def width(n):
+    return max(1, min(n, core.NCPU))
+
+
 class State:
     def __init__(self):
         self.total_eval = 0
@@ -608,11 +634,12 @@ def run_row_module(ck, st, tree, d, mode, mname, inf, part, refsrc, fmap):
                     hz_cases.append({'f': f['name'], 'a': repr(h), 't': 'min-by-minus1/%s/%s' % (f['op'], f['form'])})
             st.funcs_run += 1
             st.cells[cell] = st.cells.get(cell, 0) + nf
-    res = diff.run_cases(tree, d, mname, cases, ref=refpath, compare=cmp, setup='from props.C03_rows import *',
-                         tagdir='run_' + mname, timeout=1500, nproc=6)
+    res = diff.run_cases(tree, d, mname, cases, spec_extra=NO_CAP, ref=refpath, compare=cmp, setup='from props.C03_rows import *',
+                         tagdir='run_' + mname, timeout=3600, nproc=width(6))
     done_n = sum(c['n'] for c in cases)
     refine = []
     with st.lock:
+        truncated(ck, res, 'a C03 module run')
         st.add_hist(res.hist)
         st.samples.extend(res.samples[:1])
         for m in res.mismatches:
@@ -634,6 +661,7 @@ def run_row_module(ck, st, tree, d, mode, mname, inf, part, refsrc, fmap):
                 refine.append(case)
         for c in res.crashes:
             done_n -= c['case'].get('n', 0)
+        for c in split_hangs(ck, res.crashes, mname):
             refine.append(c['case'])
         for ft in res.fatal:
             ck.inconclusive_if(True, 'driver failed for %s: %s' % (mname, str(ft)[-300:]))
@@ -645,7 +673,7 @@ def run_row_module(ck, st, tree, d, mode, mname, inf, part, refsrc, fmap):
         ps = plist_of(case['spec'], case['nz'], case['excl'])
         single += [{'f': case['fn'], 'a': repr(pp), 't': 'refine'} for pp in ps[:3000]]
     if single:
-        r2 = diff.run_cases(tree, d, mname, single, ref=refpath, compare=cmp, tagdir='refine_' + mname, timeout=900,
+        r2 = diff.run_cases(tree, d, mname, single, spec_extra=NO_CAP, ref=refpath, compare=cmp, tagdir='refine_' + mname, timeout=3600,
                             max_restarts=40)
         with st.lock:
             st.total_eval += r2.n
@@ -654,7 +682,7 @@ def run_row_module(ck, st, tree, d, mode, mname, inf, part, refsrc, fmap):
                 pp = eval(m['case']['a'])
                 ck.discrepancy(classify(f, mode, pp, m['exp'], m['got']), '%s on %r (%s): reference %s, compiled %s' % (
                     describe(f), pp, mode, m['exp'], m['got']), witness(f, mode, pp, m['exp'], m['got']))
-            for c in r2.crashes:
+            for c in split_hangs(ck, r2.crashes, 'refine ' + mname):
                 f = fmap[c['case']['f']]
                 pp = eval(c['case']['a'])
                 ck.discrepancy(classify(f, mode, pp, ['ok', ['int', '?']], 'crash'),
@@ -663,10 +691,10 @@ def run_row_module(ck, st, tree, d, mode, mname, inf, part, refsrc, fmap):
     # MIN-by-minus-one operands: one isolated process per call (several of them kill the process on the unchanged tree)
     def one_hz(idx_hc):
         idx, hc = idx_hc
-        return hc, diff.run_cases(tree, d, mname, [hc], ref=refpath, compare=cmp, tagdir='hz_%s_%d' % (mname, idx),
-                                  timeout=300, nproc=1, max_restarts=2)
+        return hc, diff.run_cases(tree, d, mname, [hc], spec_extra=NO_CAP, ref=refpath, compare=cmp, tagdir='hz_%s_%d' % (mname, idx),
+                                  timeout=1800, nproc=1, max_restarts=2)
     if hz_cases:
-        with ThreadPoolExecutor(6) as ex:
+        with ThreadPoolExecutor(width(6)) as ex:
             hres = list(ex.map(one_hz, enumerate(hz_cases)))
         with st.lock:
             for hc, r3 in hres:
@@ -676,6 +704,9 @@ def run_row_module(ck, st, tree, d, mode, mname, inf, part, refsrc, fmap):
                 for ft in r3.fatal:
                     ck.inconclusive_if(True, 'driver failed for a min-by-minus1 case of %s: %s' % (mname, str(ft)[-300:]))
                 if r3.fatal:
+                    continue
+                r3.crashes = split_hangs(ck, r3.crashes, 'min-by-minus1 ' + mname)
+                if not r3.crashes and not r3.mismatches and r3.n == 0:
                     continue
                 if f['op'] == 'div':
                     # the quotient does not fit the type that holds it: outside the statement, outcome recorded only
@@ -722,8 +753,8 @@ def run_sweep_module(ck, st, tree, d, mode, swname, inf, swref):
             if not okr:
                 unreached.add(fname)
                 st.trivial.append('%s:%s' % (mode, fname))
-    res = diff.run_cases(tree, d, swname, [c for c, _ in sw], ref=refpath, compare={'exc_args': False, 'log': False},
-                         tagdir='run_' + swname, timeout=1800)
+    res = diff.run_cases(tree, d, swname, [c for c, _ in sw], spec_extra=NO_CAP, ref=refpath, compare={'exc_args': False, 'log': False},
+                         tagdir='run_' + swname, timeout=5400)
     nmap = {(c['f'], c['a']): n for c, n in sw}
     sw_done = sum(n for _, n in sw)
 
@@ -731,6 +762,7 @@ def run_sweep_module(ck, st, tree, d, mode, swname, inf, swref):
         return '# cython: language_level=3\n' + SWEEP_HEAD + sweep_function_source(t, mode)
 
     with st.lock:
+        truncated(ck, res, 'a C03 module run')
         st.add_hist(res.hist)
         st.samples.extend(res.samples[:1])
         for m in res.mismatches:
@@ -751,6 +783,7 @@ def run_sweep_module(ck, st, tree, d, mode, swname, inf, swref):
                  'ref_source': swref, 'compare': {'log': False, 'exc_args': False}, 'expected': m['exp'], 'observed': got})
         for c in res.crashes:
             sw_done -= nmap.get((c['case']['f'], c['case']['a']), 0)
+        for c in split_hangs(ck, res.crashes, swname):
             t = c['case']['f'].split('_', 1)[1]
             ck.discrepancy('?:%s:sweep-crash:%s' % (mode, t), 'in-C sweep %s%s crashed: %s' % (c['case']['f'], c['case']['a'], c['kind']),
                            {'module_source': modsrc(t), 'ext': '.pyx', 'case': c['case'], 'directives': directives,
@@ -814,7 +847,7 @@ def main(ck):
             continue
         jobs.append((run_sweep_module, (ck, st, tree, d2, mode, swname, inf, swrefs[swname])))
     t0 = ck.elapsed()
-    with ThreadPoolExecutor(ck.pick(4, 3)) as ex:
+    with ThreadPoolExecutor(width(ck.pick(4, 3))) as ex:
         futs = [ex.submit(fn, *args) for fn, args in jobs]
         for fu in futs:
             fu.result()
